@@ -483,7 +483,7 @@ class C12:
                    "range keys are only ever looked up through the same object held in a variable (range identity across evaluations is not asserted)"]
 
     def configs(self, tier):
-        return ["checked+hooks", "release"]
+        return ["checked+hooks", "release", "checked"]
 
     def plan(self, tier):
         return 5000 if tier == "quick" else 300000
@@ -521,7 +521,9 @@ class C12:
                "sample": {"source": src, "expected_first_events": [e_[2] if e_[1] == "plain" else [e_[2], e_[3]] for e_ in exp["events"][:12]]}}
         runs = [("checked+hooks", {"gc": {"mode": "always", "quarantine": True}}, "always"),
                 ("checked+hooks", {"gc": {"mode": "tape", "tape": sc.get("gc_tape", ""), "quarantine": True}}, "tape"),
-                ("release", None, "release-native")]
+                ("release", None, "release-native"),
+                # collects at every allocation and really frees: addresses are reused (a quarantine never reuses one)
+                ("checked", None, "checked-real-free")]
         for config, cfg, label in runs:
             h = ctx.run(config, dict(sc, config=cfg) if cfg else sc)
             stats.inc("executions:" + label)
